@@ -678,6 +678,12 @@ func ownValues(tier string, rnd *rand.Rand) []starlark.Value {
 		vs = append(vs, set)
 		vs = append(vs, &hObj{mod: txt, name: txt, args: starlark.Tuple{s, b}}, &hObj{mod: "m", name: "n", args: starlark.Tuple{starlark.String("m"), starlark.Bytes("n"), starlark.String("n")}})
 	}
+	// tuples that are slices of one another (they share their storage)
+	{
+		whole := starlark.Tuple{starlark.String("a"), starlark.String("b"), starlark.String("c"), starlark.String("d")}
+		vs = append(vs, starlark.Tuple{whole, whole[:3]}, starlark.Tuple{whole[:2], whole}, starlark.NewList([]starlark.Value{whole[:1], whole[:3], whole, whole[1:]}),
+			starlark.Tuple{whole[:3], whole[:3]})
+	}
 	sizes := []int{0, 1, 2, 3, 4, 5, 999, 1000, 1001, 2000, 2001}
 	if tier == "thorough" {
 		sizes = append(sizes, 3001, 5000)
